@@ -249,4 +249,53 @@ Section StepSkeletons.
     destruct (has_foreach sp); rewrite andthen_ok_id; [reflexivity|].
     apply gen_run_conditional_decorators_is_model.
   Qed.
+
+  (** [WhileDecorator.exec_iteration] *)
+  Lemma gen_while_exec_iteration_is_model w sp n s :
+    gen_while_exec_iteration w (fun c => foreach_or_cond rg rp sp (mkcnt (Some c) None None)) n s
+    = while_iter rg rp w sp n s.
+  Proof.
+    unfold gen_while_exec_iteration, while_iter. cbv zeta.
+    destruct (foreach_or_cond rg rp sp _ _) as [[|r|c|] s1]; try reflexivity.
+    simpl andthen_v. unfold opt_truth.
+    destruct (w_stop w) as [e|]; [|reflexivity].
+    destruct (py_truth e); [|reflexivity].
+    destruct (as_bool s1 e) as [b|en em|]; reflexivity.
+  Qed.
+
+  (** [RetryDecorator.exec_iteration] *)
+  Lemma gen_retry_exec_iteration_is_model rc sp k max n s :
+    gen_retry_exec_iteration rc
+      (fun c => invoke rg rp sp (mkcnt (k_while k) (k_for k) (Some c))) n max s
+    = retry_iter rg rp rc sp k max n s.
+  Proof.
+    unfold gen_retry_exec_iteration, retry_iter. cbv zeta. rewrite andthen_ok_id.
+    destruct (invoke rg rp sp _ _) as [[|[nm m e|[| | |c|c]]|c|] s1]; try reflexivity.
+    - (* ordinary error *)
+      cbv beta iota. simpl isinst. cbv iota.
+      destruct max as [mx|]; [destruct (Z.eqb mx 0) eqn:E0; simpl negb; cbv iota;
+                              [|destruct (Z.eqb n mx) eqn:E1; simpl andb; cbv iota; [reflexivity|]]|];
+      simpl exn_error_name; simpl andb; cbv iota;
+      unfold opt_truth;
+      (destruct (r_stopon rc) as [so|]; [destruct (py_truth so)|]);
+      (destruct (r_retryon rc) as [ro|]; [destruct (py_truth ro)|]); simpl orb; cbv iota; try reflexivity;
+      unfold lift_v, as_iter;
+      repeat match goal with
+             | |- context [fmt s1 ?x] => destruct (fmt s1 x) as [?fl|?en ?em|]; simpl; try reflexivity
+             | |- context [in_names ?a ?b] => destruct (in_names a b) as [[|]|?en ?em|]; simpl; try reflexivity
+             end.
+    - (* HandledError *)
+      cbv beta iota. simpl isinst. cbv iota. simpl exn_cause.
+      destruct max as [mx|]; [destruct (Z.eqb mx 0) eqn:E0; simpl negb; cbv iota;
+                              [|destruct (Z.eqb n mx) eqn:E1; simpl andb; cbv iota; [reflexivity|]]|];
+      simpl exn_error_name; simpl andb; cbv iota;
+      unfold opt_truth;
+      (destruct (r_stopon rc) as [so|]; [destruct (py_truth so)|]);
+      (destruct (r_retryon rc) as [ro|]; [destruct (py_truth ro)|]); simpl orb; cbv iota; try reflexivity;
+      unfold lift_v, as_iter;
+      repeat match goal with
+             | |- context [fmt s1 ?x] => destruct (fmt s1 x) as [?fl|?en ?em|]; simpl; try reflexivity
+             | |- context [in_names ?a ?b] => destruct (in_names a b) as [[|]|?en ?em|]; simpl; try reflexivity
+             end.
+  Qed.
 End StepSkeletons.
